@@ -6,7 +6,7 @@ import ast
 
 from vlib import env
 import tables
-from checks.common import bounded_part, want, contract_sources, make_replay, t_oblig
+from checks.common import anchored, bounded_part, want, contract_sources, make_replay, t_oblig
 from pysym.harness import run_cases
 
 LEVEL = 'other'
@@ -33,6 +33,7 @@ def main(run):
     env.setup()
     from contracts import cache, cachelemmas
     if want(run, 'F'):
+      with anchored(run, 'C13/F'):
         model, a = cache.analyzer()
         for name, fs in sorted(model.funcs.items()):
             f = fs[0]
@@ -84,6 +85,7 @@ def main(run):
                                             'store_override': {k: {a_: sorted(b) for a_, b in v.items()} for k, v in cache.STORE_OVERRIDE.items()},
                                             'ring_family_kept': {k: list(v) for k, v in cache.TOPO_KEEPS.items()}, 'guards': [list(g) for g in cache.GUARDS]}
     if want(run, 'T'):
+      with anchored(run, 'C13/T'):
         # transaction rollback restores every state slot of the class
         from chython.containers import MoleculeContainer
         slots = set()
@@ -113,6 +115,7 @@ def main(run):
                     ok = False
                 t_oblig(run, f'well-formed[{label}]/slot-bound[{sl}]', ok, key=f'slot-unbound:{label}:{sl}', what=f'{label}() result has slot {sl} unbound')
     if want(run, 'P'):
+      with anchored(run, 'C13/P'):
         run.under_contract('chython/algorithms/stereo.py', 'MoleculeStereo.fix_stereo/while[0]', cachelemmas.region_text())
         run_cases(run, 'contracts.cachelemmas')
     bounded_part(run, 'C13')
